@@ -3,7 +3,7 @@
    fields; the RMSD measures, renumbering, hydrogens and permutations are decided by the
    metamorphic correspondence (every variant scored by the real routines). *)
 From Verif Require Import PyLib ModelTypes Model_contact Spec_contact Model_superpose Spec_superpose
-  Proofs_superpose Proofs_invariance.
+  Proofs_superpose Proofs_invariance Proofs_rigid_rmsd.
 Open Scope Q_scope.
 
 (* every rigid motion (orthogonal matrix, any translation) preserves all squared distances ... *)
@@ -54,8 +54,20 @@ Theorem C11_ignored_fields : forall i r k v, In k [0; 2; 6; 10; 11; 12; 13]%nat 
 Proof. exact ignored_fields. Qed.
 Print Assumptions C11_ignored_fields.
 
-(* PARTIAL: invariance of the minimum-RMSD values under rigid motions (the set of residuals attainable by
-   rotations is the same for M·P+t and P), renumbering, added hydrogens and record permutations are decided by
+(* the RMSD measures: for a rigidly displaced copy M·P+t of the fitted atoms, every candidate rotation R of the
+   original corresponds to the candidate R·M^T (again orthogonal) of the copy with exactly the same residual
+   against the reference: the sets of attainable residuals — hence the minimum the kernel finds (C06), hence
+   i-RMSD and L-RMSD — are the same *)
+Theorem C11_rigid_motion_rmsd : forall m t r P Qs, orthogonal m -> P <> [] ->
+  resid (map (mv (mmul r (mT m))) (centred (map (affine m t) P))) (centred Qs)
+  == resid (map (mv r) (centred P)) (centred Qs).
+Proof. exact residuals_of_displaced_copy. Qed.
+Print Assumptions C11_rigid_motion_rmsd.
+Theorem C11_rotation_candidates_correspond : forall a b, orthogonal a -> orthogonal b -> orthogonal (mmul a b).
+Proof. exact orthogonal_mmul. Qed.
+Print Assumptions C11_rotation_candidates_correspond.
+
+(* PARTIAL: renumbering, added hydrogens and record permutations are decided by
    the metamorphic correspondence, not by theorems. Permutation + fast route + no enforcement: known finding F6. *)
 Example C11_example :
   let m : mat := ((0, -1, 0), (1, 0, 0), (0, 0, 1)) in
